@@ -70,6 +70,9 @@ def mutations(sealed: str, rng: random.Random):
         yield "append-after-seal", "\n".join(lines[:end_at] + ["AFTER_SEAL::1"] + lines[end_at:])
         yield "append-block-after-seal", "\n".join(lines[:end_at] + ["AFTERB:", "  X::1"] + lines[end_at:])
         yield "append-section-after-seal", "\n".join(lines[:end_at] + ["§7::LATE", "  X::1"] + lines[end_at:])
+        # a further section KEYED SEAL: the hash is taken over the document without its SEAL sections, so its content must not ride along
+        yield "append-second-seal-section", "\n".join(lines[:end_at] + ["§9::SEAL", "  EVIL::1"] + lines[end_at:])
+        yield "insert-second-seal-section-before", "\n".join(lines[:seal_at] + ["§9::SEAL", "  EVIL::1"] + lines[seal_at:])
     except ValueError:
         pass
     m = re.match(r"^===(\w+)===$", lines[0]) if lines else None
